@@ -648,10 +648,11 @@ func (v *traceVisitor) VisitKeyValue(path string, key, value []byte) bool {
 }
 
 // NoTrace checks that id occurs nowhere: the repository's own oracle and an independent byte search.
-func NoTrace(tx *bbolt.Tx, id string) []Violation {
+func NoTrace(tx *bbolt.Tx, id string, extraProps ...string) []Violation {
 	var out []Violation
+	props := append([]string{"C06"}, extraProps...)
 	if err := boltz.ValidateDeleted(tx, id); err != nil {
-		out = append(out, Violation{Props: []string{"C06"}, Oracle: "trace", Sig: "validate-deleted", Detail: fmt.Sprintf("ValidateDeleted(%q): %v", id, err)})
+		out = append(out, Violation{Props: props, Oracle: "trace", Sig: "validate-deleted", Detail: fmt.Sprintf("ValidateDeleted(%q): %v", id, err)})
 	}
 	v := &traceVisitor{id: []byte(id), typed: boltz.PrependFieldType(boltz.TypeString, []byte(id))}
 	boltz.Traverse(tx, "", v)
@@ -664,7 +665,7 @@ func NoTrace(tx *bbolt.Tx, id string) []Violation {
 			kind = "key"
 		}
 		// the path names which structure kept the trace
-		out = append(out, Violation{Props: []string{"C06"}, Oracle: "trace", Sig: "trace-" + kind, Detail: fmt.Sprintf("deleted id %q still occurs: %s", id, strings.Join(v.hits, "; "))})
+		out = append(out, Violation{Props: props, Oracle: "trace", Sig: "trace-" + kind, Detail: fmt.Sprintf("deleted id %q still occurs: %s", id, strings.Join(v.hits, "; "))})
 	}
 	return out
 }
@@ -729,6 +730,24 @@ func ChildViews(tx *bbolt.Tx, s *Stores, m *Model, names, roles []string) []Viol
 		}
 		if got := cursorIds(v.store.IterateValidIds(tx, ast.BoolNodeTrue)); !sameSet(got, v.validIds) {
 			bad("iterate-valid-ids:"+v.name, "%s.IterateValidIds=%q, want %q", v.name, got, v.validIds)
+		}
+		for _, id := range all {
+			c := v.store.IterateValidIds(tx, ast.BoolNodeTrue)
+			c.Seek([]byte(id))
+			want := ""
+			for _, l := range v.validIds {
+				if l >= id {
+					want = l
+					break
+				}
+			}
+			got := ""
+			if c.IsValid() {
+				got = string(c.Current())
+			}
+			if got != want {
+				bad("seek-valid:"+v.name, "%s.IterateValidIds().Seek(%q) is at %q, want %q (valid ids %q)", v.name, id, got, want, v.validIds)
+			}
 		}
 		// cursor Seek: positions at the first listed id >= the sought one
 		for _, id := range all {
